@@ -40,5 +40,10 @@ CLAIMED = {
         "A-SPNEGO / A-IDEAL: a successful unwrap_iov means the peer holding the session key sealed exactly these buffers (cryptographic unforgeability and replay protection are inside the security context and are assumed, not proved). PDU.unpack is used through its summary contract, verified under C12.",
         "DESIGN 5 C16",
     ),
+    "C14": (
+        "Deductive proof against a nondeterministic peer contract: recv_into(view) may deliver ANY 1..min(len(view), remaining) bytes of the ghost stream and 0 only at EOF; readexactly(n) delivers n bytes or raises. SyncRpcClient._recv_into is proved (loop invariant + variant) to fill its view with exactly the next len(view) stream bytes for every chunking and to raise ConnectionError when the stream ends first; both _send_pdu flavours are proved to send the prepared PDU once, then hand _process_response exactly STREAM[:frag_len] (frag_len = LE16(STREAM[8:10])) with the header decoded from STREAM[:16], and to raise ConnectionError / IncompleteReadError when the stream is shorter than 16 or than frag_len bytes. The chunk sizes are the callee contract's nondeterminism, so the VC quantifies over every segmentation and EOF point.",
+        "A-NET: socket.recv_into / StreamReader.readexactly behave as stated; a peer that neither sends nor closes is outside the property. _prepare_pdu and _process_response are used through their contracts (C13, C16).",
+        "DESIGN 5 C14",
+    ),
 }
 NOT_CLAIMED = {}
